@@ -37,9 +37,11 @@ def _z(meas, t, pva, em):
     return np.asarray(ret[0], float)
 
 
-def domain_module(tier, seed):
+def domain_module(tier, seed, fast=False):
     rng = np.random.RandomState(seed)
     vels = [(0, 0, 0), (3, -2, 1), (0, 5, 0), (-4, 1, -2)]
+    if fast:                       # aircraft speeds: the velocity skew block then dominates the transforms (seeded change C05_3)
+        vels += [(250, -120, 3), (-40, 300, 0)]
     levers = [(), (0, 0, 0), (2, 0, 0), (0, -3, 1)]
     rates = [(), (0, 0, 0), (0, 0, 2), (1, -1, 0)]
     extra = 1 if tier == "quick" else 4
